@@ -14,12 +14,26 @@ def mget (m : M) (k : Key) : Option Bytes := (ilookup k m).map (·.1)
 
 def mcount (m : M) : Nat := m.length
 
-/-- Browse: every record not flagged NO_BROWSE is shown; the walk function's result updates the flags -/
+/-- Browse when the walk function never answers BR_ABORT: every record not flagged NO_BROWSE is shown -/
 def mbrowseOut (m : M) : List (Key × Bytes) :=
   m.filterMap fun (k, v, f) => if hasFlag f NO_BROWSE then none else some (k, v)
 
+/-- what the walk function's BR_ABORT answers make of a Browse (`all = false`) / BrowseAll (`all = true`) of the map:
+    `none` = every eligible entry is visited; `some l` = only the keys of `l` (Model.Qdb.visitSet: the eligible listed
+    keys in the order of `w` — the order Go's map iteration takes — up to and including the first aborting one) -/
+def mvisitSet (all : Bool) (m : M) (w : List (Key × Nat)) : Option (List Key) :=
+  visitSet (α := Bytes × Nat) (·.2) all m w
+
+/-- what Browse shows when the walk function may abort: the visited entries with their values -/
+def mbrowseOutV (vs : Option (List Key)) (m : M) : List (Key × Bytes) :=
+  m.filterMap fun (k, v, f) => if skipB false vs f k then none else some (k, v)
+
+def mbrowseOutW (w : List (Key × Nat)) (m : M) : List (Key × Bytes) := mbrowseOutV (mvisitSet false m w) m
+
+/-- the walk function's answer updates the flags of every visited entry — of the aborting one too -/
 def mbrowseState (m : M) (walk : List (Key × Nat)) : M :=
-  m.map fun (k, v, f) => if hasFlag f NO_BROWSE then (k, v, f) else (k, v, applyBrowsingFlags f (walkRes walk k))
+  m.map fun (k, v, f) =>
+    if skipB false (mvisitSet false m walk) f k then (k, v, f) else (k, v, applyBrowsingFlags f (walkRes walk k))
 
 def mstep (m : M) : Op → M
   | .put k v => iset k (v, 0) m
